@@ -87,6 +87,7 @@ const (
 	FSharedReq    = "request_message_shared_by_two_methods"
 	FTrailingSlash = "path_with_trailing_slash"
 	FQueryCard    = "query_repeated_or_optional"
+	FPartialConfig = "methods_without_path_config"
 	FInt64Number  = "ann_int64_number"
 	FEnumValue    = "ann_enum_value"
 	FEnumNumber   = "ann_enum_number"
@@ -117,7 +118,7 @@ var SafeFeatures = []string{FBasePath, FPathVars, FQuery, FQueryOnBody, FHeaders
 	FEnum, FMap, FOneof, FOptional, FRepeated, FTimestamp, FBytes, FRules, FCustomError, FAllKinds, FMultiService, FNameShapes, FSharedPath, FSharedReq}
 
 // LateFeatures are drawn from the side stream.
-var LateFeatures = []string{FQueryCard}
+var LateFeatures = []string{FQueryCard, FPartialConfig}
 
 var AnnotationFeatures = []string{FInt64Number, FEnumValue, FEnumNumber, FNullable, FEmptyBehav, FTsFormat, FBytesEnc, FFlatten, FOneofDisc, FUnwrap}
 
@@ -576,19 +577,44 @@ func (x *g) method(s *spec.Service, name string, idx int, usedRoutes map[string]
 	verb := pick(x.r, verbs)
 	m.HasConfig = true
 	m.Verb = verb
+	noCfg, verbOnly := x.has(RDefaultPath), x.has(RVerbOnly)
+	if !noCfg && !verbOnly && x.has(FPartialConfig) {
+		// some methods of the service leave the path to the generators' default
+		switch x.r2.intn(5) {
+		case 0:
+			noCfg = true
+		case 1:
+			verbOnly = true
+		}
+		if noCfg || verbOnly {
+			v := verb
+			if noCfg {
+				v = "POST"
+			}
+			def := "/pb/" + camelToSnake(name)
+			if s.BasePath != nil && *s.BasePath != "" {
+				def = spec.JoinPath(*s.BasePath, camelToSnake(name))
+			}
+			if x.conflicts(v, segsOf(def)) {
+				noCfg, verbOnly = false, false
+			} else {
+				x.routes = append(x.routes, route{v, segsOf(def)})
+			}
+		}
+	}
 	switch {
-	case x.has(RDefaultPath):
+	case noCfg:
 		m.HasConfig = false
 		m.Verb = ""
 		verb = "POST"
-	case x.has(RVerbOnly):
+	case verbOnly:
 		m.Path = ""
 	}
 	bodyless := verb == "GET" || verb == "DELETE"
 
 	// the same path template under another verb (GET/PUT/DELETE on /items/{id})
 	var shared *sharedPath
-	if x.has(FSharedPath) && m.HasConfig && !x.has(RVerbOnly) && !x.has(RDefaultPath) && x.prevPath[s.Name] != nil && x.r.chance(1, 2) {
+	if x.has(FSharedPath) && m.HasConfig && !verbOnly && !noCfg && x.prevPath[s.Name] != nil && x.r.chance(1, 2) {
 		sp := x.prevPath[s.Name]
 		bpre := ""
 		if s.BasePath != nil {
@@ -606,7 +632,7 @@ func (x *g) method(s *spec.Service, name string, idx int, usedRoutes map[string]
 	}
 	// path
 	nVars := 0
-	if x.has(FPathVars) && m.HasConfig && !x.has(RVerbOnly) {
+	if x.has(FPathVars) && m.HasConfig && !verbOnly {
 		nVars = x.r.intn(4)
 	}
 	if shared != nil || x.has(FTrailingSlash) {
@@ -679,7 +705,7 @@ func (x *g) method(s *spec.Service, name string, idx int, usedRoutes map[string]
 		}
 		x.routes = append(x.routes, route{verb, segsOf(spec.JoinPath(bpre3, p))})
 		m.Path = p
-	} else if m.HasConfig && !x.has(RVerbOnly) {
+	} else if m.HasConfig && !verbOnly {
 		p := strings.Join(segs, "/")
 		if !x.has(RPathNoSlash) {
 			p = "/" + p
@@ -1074,4 +1100,21 @@ func (x *g) needMockLeaf() {
 		leaf.Fields[1].Examples = []string{"100", "200", "300"}
 	}
 	x.f.Messages = append(x.f.Messages, leaf)
+}
+
+// camelToSnake is the documented default-path spelling of a method name (GetUser -> get_user).
+func camelToSnake(n string) string {
+	var b []byte
+	for i := 0; i < len(n); i++ {
+		c := n[i]
+		if c >= 'A' && c <= 'Z' {
+			if i > 0 {
+				b = append(b, '_')
+			}
+			b = append(b, c+'a'-'A')
+		} else {
+			b = append(b, c)
+		}
+	}
+	return string(b)
 }
